@@ -20,7 +20,7 @@ pub const SPEC: Spec = Spec {
     rule: "a 1->1 Core program IR with witness nodes (on executed and on unexecuted branches); for every witness node a candidate value is drawn: of the inferred target type, of a wider type, of a narrower type, of an equal-width type of different shape, unit, or missing; routes: (A) construction-time witnesses + finalize_unpruned, (B) + finalize_pruned, (C) Forest::from_program + to_witness_node(name -> value map) + finalize_unpruned / finalize_pruned. Oracle: no panic; the result is Err, or a program in which every witness value has exactly its node's target type, whose serialisation decodes back to it and whose execution does not panic. Non-trivial: >= 1 witness with a wrong-typed candidate of non-zero width. Distinct by (program, candidates).",
     design_ref: "§6 C12",
     max_len: 1500,
-    quick_cases: 10_000,
+    quick_cases: 40_000,
     thorough_cases: 250_000,
     ..Spec::base("C12", "Redemption programs only ever carry well-typed witnesses", case)
 };
